@@ -829,17 +829,27 @@ class CompositeEnvelope:
                 composite_envelopes.append(e.composite_envelope)
 
         ce_container = None
+        absorbed: List[CompositeEnvelopeContainer] = []
         for ce in composite_envelopes:
             assert isinstance(
                 ce, CompositeEnvelope
             ), "ce should be CompositeEnvelope type"
             state_objs.extend(ce.state_objs)
+            container = CompositeEnvelope._containers[ce.uid]
             if ce_container is None:
-                ce_container = CompositeEnvelope._containers[ce.uid]
-            elif CompositeEnvelope._containers[ce.uid] is not ce_container:
+                ce_container = container
+            elif container is not ce_container and not any(
+                container is c for c in absorbed
+            ):
                 # Handles of the same composite envelope share one container
-                ce_container.append_states(CompositeEnvelope._containers[ce.uid])
+                ce_container.append_states(container)
+                absorbed.append(container)
             ce.uid = self.uid
+        # Older handles of the absorbed composite envelopes keep their uid,
+        # they must resolve to the surviving container as well
+        for uid, container in list(CompositeEnvelope._containers.items()):
+            if any(container is c for c in absorbed):
+                CompositeEnvelope._containers[uid] = ce_container
         if ce_container is None:
             ce_container = CompositeEnvelopeContainer(self.uid)
         for e in envelopes:
